@@ -226,7 +226,7 @@ Definition nh_process_arp (i : iface) (now : Z) (op sha spa tpa : Z) : iface * l
 
 (* InterfaceInner::process_ipv4 for an unfragmented ICMPv4 echo request that no raw/DHCP socket
    takes: source filter, destination filter, cache refresh, auto echo reply (icmpv4_reply) *)
-Definition nh_process_ipv4_echo (i : iface) (now : Z) (shw src dst : Z) : outcome (iface * list frame) :=
+Definition nh_process_ipv4_echo (i : iface) (now : Z) (shw src dst : Z) (l4ok : bool) : outcome (iface * list frame) :=
   if negb (nh_is_unicast_v4 i src) && negb (v4_is_unspecified src) then Ok (i, [])
   else if negb (nh_has_ip_addr i (V4 dst)) && negb (nh_has_multicast_group i (V4 dst))
           && negb (nh_is_broadcast_v4 i dst) then Ok (i, [])
@@ -234,7 +234,8 @@ Definition nh_process_ipv4_echo (i : iface) (now : Z) (shw src dst : Z) : outcom
     let i1 := if nh_is_unicast_v4 i dst
               then set_cache i (neigh_reset_expiry_if_existing (if_cache i) (V4 src) shw now)
               else i in
-    if negb (nh_is_unicast_v4 i1 src) then Ok (i1, [])
+    if negb l4ok then Ok (i1, [])   (* Icmpv4Repr::parse rejects the checksum - after the cache refresh *)
+    else if negb (nh_is_unicast_v4 i1 src) then Ok (i1, [])
     else if nh_is_unicast_v4 i1 dst then nh_respond i1 (V4 src) TAG_ECHO_REPLY now
     else if nh_is_broadcast_v4 i1 dst then
       if nh_has_ipv4_source i1 then nh_respond i1 (V4 src) TAG_ECHO_REPLY now else Ok (i1, [])
@@ -243,7 +244,8 @@ Definition nh_process_ipv4_echo (i : iface) (now : Z) (shw src dst : Z) : outcom
 Inductive v6payload :=
 | P6Echo
 | P6Na (target : Z) (lladdr : option Z) (override : bool)
-| P6Ns (target : Z) (lladdr : option Z).
+| P6Ns (target : Z) (lladdr : option Z)
+| P6Bad.      (* ICMPv6 message whose checksum the interface verifies and rejects (Icmpv6Repr::parse fails) *)
 
 (* RawHardwareAddress::parse(medium) of a link-layer address option succeeds iff the option carries
    6 octets on Ethernet, 8 octets (an extended address) on 802.15.4; otherwise `check!` abandons the
@@ -254,7 +256,7 @@ Definition hw_option_ok (i : iface) (l : Z) : bool :=
 (* InterfaceInner::process_ndisc, NeighborAdvert / NeighborSolicit arms *)
 Definition nh_process_ndisc (i : iface) (now : Z) (src dst : Z) (p : v6payload) : outcome (iface * list frame) :=
   match p with
-  | P6Echo => Ok (i, [])
+  | P6Echo | P6Bad => Ok (i, [])
   | P6Na target lladdr override =>
       match lladdr with
       | Some l =>
@@ -266,11 +268,12 @@ Definition nh_process_ndisc (i : iface) (now : Z) (src dst : Z) (p : v6payload) 
       | None => Ok (i, [])
       end
   | P6Ns target lladdr =>
+      if negb (v6_x_is_unicast target) then Ok (i, []) else
       let filled :=
         match lladdr with
         | Some l =>
             if negb (hw_option_ok i l) then None
-            else if negb (hw_is_unicast i l) || negb (v6_x_is_unicast target) then None
+            else if negb (hw_is_unicast i l) then None
             else Some (set_cache i (neigh_fill (if_cap i) (if_cache i) (V6 src) l now))
         | None => Some i
         end in
@@ -293,6 +296,7 @@ Definition nh_process_ipv6 (i : iface) (now : Z) (shw src dst hop : Z) (p : v6pa
               else i in
     match p with
     | P6Echo => nh_respond i1 (V6 src) TAG_ECHO_REPLY now
+    | P6Bad => Ok (i1, [])        (* the cache refresh above precedes the ICMPv6 checksum verification *)
     | _ => if hop =? 255 then nh_process_ndisc i1 now src dst p else Ok (i1, [])
     end.
 
@@ -302,11 +306,16 @@ Inductive rxframe :=
 | RxV6 (edst esrc src dst hop : Z) (p : v6payload)
 (* an IEEE 802.15.4 data frame carrying an (IPHC-compressed) IPv6 packet; panok = the destination
    PAN id is ours or the broadcast PAN, or no PAN id is configured *)
-| Rx154 (panok : bool) (ldst lsrc src dst hop : Z) (p : v6payload).
+| Rx154 (panok : bool) (ldst lsrc src dst hop : Z) (p : v6payload)
+(* an ICMPv4 echo request whose ICMP checksum the interface verifies and rejects *)
+| RxV4Bad (edst esrc src dst : Z)
+(* a frame that does not parse beyond the Ethernet header (e.g. rejected IPv4 header checksum) *)
+| RxJunk (edst : Z).
 
 Definition rx_edst (f : rxframe) : Z :=
   match f with
   | RxArp e _ _ _ _ => e | RxV4Echo e _ _ _ => e | RxV6 e _ _ _ _ _ => e | Rx154 _ e _ _ _ _ _ => e
+  | RxV4Bad e _ _ _ => e | RxJunk e => e
   end.
 
 (* InterfaceInner::process_ethernet: frames for another station are ignored; an IP datagram in a
@@ -321,11 +330,15 @@ Definition nh_process_ethernet (i : iface) (now : Z) (f : rxframe) : outcome (if
     | RxArp _ op sha spa tpa => Ok (nh_process_arp i now op sha spa tpa)
     | RxV4Echo _ esrc src dst =>
         if negb link_unicast && negb (v4_is_multicast dst) && negb (nh_is_broadcast_v4 i dst) then Ok (i, [])
-        else nh_process_ipv4_echo i now esrc src dst
+        else nh_process_ipv4_echo i now esrc src dst true
+    | RxV4Bad _ esrc src dst =>
+        if negb link_unicast && negb (v4_is_multicast dst) && negb (nh_is_broadcast_v4 i dst) then Ok (i, [])
+        else nh_process_ipv4_echo i now esrc src dst false
     | RxV6 _ esrc src dst hop p =>
         if negb link_unicast && negb (v6_is_multicast dst) then Ok (i, [])
         else nh_process_ipv6 i now esrc src dst hop p
     | Rx154 _ _ _ _ _ _ _ => Ok (i, [])      (* not an Ethernet frame *)
+    | RxJunk _ => Ok (i, [])
     end.
 
 (* InterfaceInner::process_ieee802154 + process_sixlowpan for an unfragmented data frame: only the PAN
@@ -344,6 +357,13 @@ Definition nh_process_ieee802154 (i : iface) (now : Z) (f : rxframe) : outcome (
 Definition nh_process_rx (i : iface) (now : Z) (f : rxframe) : outcome (iface * list frame) :=
   if if_ether i then nh_process_ethernet i now f else nh_process_ieee802154 i now f.
 
+(* Interface::set_hardware_addr: check_hardware_addr panics for a non-unicast address; the neighbor
+   cache is kept *)
+Definition nh_set_hardware_addr (i : iface) (hw : Z) : outcome iface :=
+  if hw_is_unicast i hw
+  then Ok (mkIface (if_ether i) hw (if_cap i) (if_addrs i) (if_routes i) (if_cache i))
+  else Panic.
+
 (* Interface::update_ip_addrs: new address list, neighbor cache flushed *)
 Definition nh_update_ip_addrs (i : iface) (l : list cidr) : iface :=
   mkIface (if_ether i) (if_hw i) (if_cap i) l (if_routes i) (neigh_flush (if_cache i)).
@@ -360,10 +380,18 @@ Record sim := mkSim {
   sim_qcap : Z;                       (* packet slots of every socket's tx buffer *)
   sim_rcap : Z;                       (* IFACE_MAX_ROUTE_COUNT *)
   sim_socks : list sock;
-  sim_rx : list rxframe }.            (* device rx queue, oldest first *)
+  sim_rx : list rxframe;              (* device rx queue, oldest first *)
+  sim_txb : option Z }.               (* frames the device accepts per poll (None = unlimited) *)
 
 Definition sim_init (ether : bool) (hw cap rcap qcap : Z) (kinds : list Z) : sim :=
-  mkSim (nh_init ether hw cap) qcap rcap (map (fun k => mkSock k Active []) kinds) [].
+  mkSim (nh_init ether hw cap) qcap rcap (map (fun k => mkSock k Active []) kinds) [] None.
+
+(* device back-pressure (svh::dev::QDev::tx_budget): with budget 0 neither receive() nor transmit()
+   hands out a token; every transmitted frame takes one (saturating) *)
+Definition bud_empty (b : option Z) : bool :=
+  match b with Some n => n <=? 0 | None => false end.
+Definition bud_take (b : option Z) (n : nat) : option Z :=
+  match b with Some x => Some (Z.max 0 (x - Z.of_nat n)) | None => None end.
 
 (* udp/icmp/raw Socket::poll_at *)
 Definition sock_poll_at (s : sock) : poll_at :=
@@ -391,38 +419,62 @@ Definition sim_sock_egress (i : iface) (s : sock) (now : Z) : outcome (iface * s
           end
     end.
 
-(* Interface::socket_egress: every socket once, in handle order *)
-Fixpoint sim_socket_egress (i : iface) (ss : list sock) (now : Z)
-  : outcome (iface * list sock * list frame * bool) :=
+(* would this socket's turn reach `device.transmit()`?  Some s1 = yes (s1: the socket after
+   egress_permitted, which may already have cleared the back-off), None = no *)
+Definition sim_sock_wants_token (i : iface) (s : sock) (now : Z) : option sock :=
+  let '(permitted, m1) := meta_egress_permitted (sk_meta s) now (nh_has_neighbor i now) in
+  if negb permitted then None
+  else
+    match sk_q s with
+    | [] => None
+    | (dst, tag) :: rest =>
+        if ((sk_kind s <? 2) && (match dst with V4 _ => true | V6 _ => false end) && negb (nh_has_ipv4_source i))
+           || (negb (sk_kind s <? 2) && ip_is_unspecified dst)
+        then None
+        else Some (mkSock (sk_kind s) m1 (sk_q s))
+    end.
+
+(* Interface::socket_egress: every socket once, in handle order; `transmit()` returning None
+   (EgressError::Exhausted) ends the pass: nothing is looked up, armed or dequeued *)
+Fixpoint sim_socket_egress (i : iface) (ss : list sock) (now : Z) (b : option Z)
+  : outcome (iface * list sock * list frame * bool * option Z) :=
   match ss with
-  | [] => Ok (i, [], [], false)
+  | [] => Ok (i, [], [], false, b)
   | s :: rest =>
-      do '(i1, s1, f1, b1) <- sim_sock_egress i s now;
-      do '(i2, r2, f2, b2) <- sim_socket_egress i1 rest now;
-      Ok (i2, s1 :: r2, f1 ++ f2, b1 || b2)
+      match (if bud_empty b then sim_sock_wants_token i s now else None) with
+      | Some s1 => Ok (i, s1 :: rest, [], false, b)
+      | None =>
+          do '(i1, s1, f1, b1) <- sim_sock_egress i s now;
+          do '(i2, r2, f2, b2, bd) <- sim_socket_egress i1 rest now (bud_take b (length f1));
+          Ok (i2, s1 :: r2, f1 ++ f2, b1 || b2, bd)
+      end
   end.
 
 (* the `loop { match poll_egress() { None => break, .. } }` of Interface::poll.  Every repeated
    pass has dequeued at least one packet, so fuel = 1 + number of queued packets suffices. *)
-Fixpoint sim_egress_loop (fuel : nat) (i : iface) (ss : list sock) (now : Z)
+Fixpoint sim_egress_loop (fuel : nat) (i : iface) (ss : list sock) (now : Z) (b : option Z)
   : outcome (iface * list sock * list frame) :=
   match fuel with
   | O => Ok (i, ss, [])
   | S fuel' =>
-      do '(i1, ss1, f1, again) <- sim_socket_egress i ss now;
+      do '(i1, ss1, f1, again, b1) <- sim_socket_egress i ss now b;
       if again then
-        do '(i2, ss2, f2) <- sim_egress_loop fuel' i1 ss1 now;
+        do '(i2, ss2, f2) <- sim_egress_loop fuel' i1 ss1 now b1;
         Ok (i2, ss2, f1 ++ f2)
       else Ok (i1, ss1, f1)
   end.
 
-Fixpoint sim_ingress (i : iface) (rx : list rxframe) (now : Z) : outcome (iface * list frame) :=
+(* the ingress loop of Interface::poll: frames stay in the device while it has no tx budget *)
+Fixpoint sim_ingress (i : iface) (rx : list rxframe) (now : Z) (b : option Z)
+  : outcome (iface * list frame * list rxframe * option Z) :=
   match rx with
-  | [] => Ok (i, [])
+  | [] => Ok (i, [], [], b)
   | f :: rest =>
-      do '(i1, f1) <- nh_process_rx i now f;
-      do '(i2, f2) <- sim_ingress i1 rest now;
-      Ok (i2, f1 ++ f2)
+      if bud_empty b then Ok (i, [], rx, b)
+      else
+        do '(i1, f1) <- nh_process_rx i now f;
+        do '(i2, f2, lft, b2) <- sim_ingress i1 rest now (bud_take b (length f1));
+        Ok (i2, f1 ++ f2, lft, b2)
   end.
 
 Definition sim_queued (ss : list sock) : nat :=
@@ -430,9 +482,9 @@ Definition sim_queued (ss : list sock) : nat :=
 
 (* Interface::poll *)
 Definition sim_poll (st : sim) (now : Z) : outcome (sim * list frame) :=
-  do '(i1, f1) <- sim_ingress (sim_if st) (sim_rx st) now;
-  do '(i2, ss2, f2) <- sim_egress_loop (S (sim_queued (sim_socks st))) i1 (sim_socks st) now;
-  Ok (mkSim i2 (sim_qcap st) (sim_rcap st) ss2 [], f1 ++ f2).
+  do '(i1, f1, lft, b1) <- sim_ingress (sim_if st) (sim_rx st) now (sim_txb st);
+  do '(i2, ss2, f2) <- sim_egress_loop (S (sim_queued (sim_socks st))) i1 (sim_socks st) now b1;
+  Ok (mkSim i2 (sim_qcap st) (sim_rcap st) ss2 lft (sim_txb st), f1 ++ f2).
 
 (* Interface::poll_at over the sockets (fragmenter empty, SLAAC disabled): None = no deadline *)
 Definition sim_poll_at (st : sim) (now : Z) : option Z :=
@@ -454,6 +506,8 @@ Inductive sim_ev :=
 | SRtPush (r : route)
 | SRtRm (idx : nat)
 | SRtClear
+| SSetHw (hw : Z)
+| STxb (b : option Z)
 | SPoll (now : Z).
 
 Fixpoint list_update {A} (l : list A) (n : nat) (f : A -> A) : list A :=
@@ -471,7 +525,7 @@ Fixpoint list_remove_nth {A} (l : list A) (n : nat) : list A :=
   end.
 
 Definition sim_set_if (st : sim) (i : iface) : sim :=
-  mkSim i (sim_qcap st) (sim_rcap st) (sim_socks st) (sim_rx st).
+  mkSim i (sim_qcap st) (sim_rcap st) (sim_socks st) (sim_rx st) (sim_txb st).
 
 (* one event of the stream: new state, frames put on the wire, return value (1 ok / 0 refused) *)
 Definition sim_step (st : sim) (e : sim_ev) : outcome (sim * list frame * Z) :=
@@ -487,10 +541,10 @@ Definition sim_step (st : sim) (e : sim_ev) : outcome (sim * list frame * Z) :=
           then Ok (mkSim (sim_if st) (sim_qcap st) (sim_rcap st)
                          (list_update (sim_socks st) n
                             (fun s => mkSock (sk_kind s) (sk_meta s) (sk_q s ++ [(dst, tag)])))
-                         (sim_rx st), [], 1)
+                         (sim_rx st) (sim_txb st), [], 1)
           else Ok (st, [], 0)
       end
-  | SRx f => Ok (mkSim (sim_if st) (sim_qcap st) (sim_rcap st) (sim_socks st) (sim_rx st ++ [f]), [], 1)
+  | SRx f => Ok (mkSim (sim_if st) (sim_qcap st) (sim_rcap st) (sim_socks st) (sim_rx st ++ [f]) (sim_txb st), [], 1)
   | SRtDef4 gw =>
       let '(r, ok) := route_add_default_ipv4_route (sim_rcap st) (if_routes (sim_if st)) gw in
       Ok (sim_set_if st (set_routes (sim_if st) r), [], if ok then 1 else 0)
@@ -507,6 +561,8 @@ Definition sim_step (st : sim) (e : sim_ev) : outcome (sim * list frame * Z) :=
   | SRtRm idx =>
       Ok (sim_set_if st (set_routes (sim_if st) (list_remove_nth (if_routes (sim_if st)) idx)), [], 1)
   | SRtClear => Ok (sim_set_if st (set_routes (sim_if st) []), [], 1)
+  | SSetHw hw => do i' <- nh_set_hardware_addr (sim_if st) hw; Ok (sim_set_if st i', [], 1)
+  | STxb b => Ok (mkSim (sim_if st) (sim_qcap st) (sim_rcap st) (sim_socks st) (sim_rx st) b, [], 1)
   | SPoll now =>
       do '(st', fr) <- sim_poll st now; Ok (st', fr, 1)
   end.
